@@ -51,32 +51,48 @@ def fcond(node, cell, fl) -> str:
     return f"(.other {lean_str(t)})"
 
 
-def cell_tree(stmts, cell, fl, sink) -> str:
-    """statements of the innermost loop body that decide what is appended for this cell"""
+def cell_tree(stmts, cell, fl, sink, held=None) -> str:
+    """statements of the innermost loop body that decide what is appended for this cell.  `held`: locals that hold what will be
+    appended later (name -> leaf), so `entry = None ... entry = float(v) ... append(entry)` reads like appending in the branches"""
     stmts = list(stmts)
+    held = dict(held or {})
     if not stmts:
         return f'(.leaf (.other "nothing appended"))'
     s, rest = stmts[0], stmts[1:]
-    if isinstance(s, ast.Assign) and len(s.targets) == 1 and isinstance(s.targets[0], ast.Name):
-        v = s.value
-        if isinstance(v, ast.Call) and src(v.func) == "float" and len(v.args) == 1 and src(v.args[0]) in ({cell} | set(fl)):
-            return cell_tree(rest, cell, fl | {s.targets[0].id}, sink)
-        if not any(isinstance(n, ast.Name) and n.id in ({cell} | set(fl)) for n in ast.walk(v)):
-            return cell_tree(rest, cell, fl, sink)           # bookkeeping that does not look at the cell
-        return f"(.leaf (.other {lean_str(src(s))}))"
-    if isinstance(s, ast.If):
-        if not any(isinstance(n, ast.Call) and src(n.func).endswith(".append") for n in ast.walk(s)):
-            return cell_tree(rest, cell, fl, sink)           # e.g. creating the group's dictionary
-        return f"(.ite {fcond(s.test, cell, fl)} {cell_tree(list(s.body) + rest, cell, fl, sink)} {cell_tree(list(s.orelse) + rest, cell, fl, sink)})"
-    if isinstance(s, ast.Expr) and isinstance(s.value, ast.Call) and src(s.value.func).endswith(".append") and len(s.value.args) == 1:
-        a = s.value.args[0]
+
+    def leaf_of(a):
         if src(a) == "None":
             return "(.leaf .missing)"
+        if isinstance(a, ast.Name) and a.id in held:
+            return held[a.id]
         inner = a.args[0] if isinstance(a, ast.Call) and src(a.func) == "float" and len(a.args) == 1 else a
         if src(inner) in fl or (isinstance(inner, ast.Call) and src(inner.func) == "float" and src(inner.args[0]) == cell):
             return "(.leaf .keep)"
-        return f"(.leaf (.other {lean_str(src(a))}))"
-    return cell_tree(rest, cell, fl, sink)
+        return None
+    appended_names = {src(n.args[0]) for st in [s] + rest for n in ast.walk(st)
+                      if isinstance(n, ast.Call) and src(n.func).endswith(".append") and len(n.args) == 1 and isinstance(n.args[0], ast.Name)}
+    if isinstance(s, ast.Assign) and len(s.targets) == 1 and isinstance(s.targets[0], ast.Name):
+        v, nm = s.value, s.targets[0].id
+        if isinstance(v, ast.Call) and src(v.func) == "float" and len(v.args) == 1 and src(v.args[0]) in ({cell} | set(fl)) and nm not in appended_names - {cell} - set(fl):
+            return cell_tree(rest, cell, fl | {nm}, sink, held)
+        if nm in appended_names:
+            lf = leaf_of(v)
+            if lf is not None:
+                return cell_tree(rest, cell, fl, sink, dict(held, **{nm: lf}))
+            return f"(.leaf (.other {lean_str(src(s))}))"
+        if not any(isinstance(n, ast.Name) and n.id in ({cell} | set(fl)) for n in ast.walk(v)):
+            return cell_tree(rest, cell, fl, sink, held)           # bookkeeping that does not look at the cell
+        return f"(.leaf (.other {lean_str(src(s))}))"
+    if isinstance(s, ast.If):
+        touches = any(isinstance(n, ast.Call) and src(n.func).endswith(".append") for n in ast.walk(s)) or \
+            any(isinstance(n, ast.Assign) and isinstance(n.targets[0], ast.Name) and n.targets[0].id in appended_names for n in ast.walk(s))
+        if not touches:
+            return cell_tree(rest, cell, fl, sink, held)           # e.g. creating the group's dictionary
+        return f"(.ite {fcond(s.test, cell, fl)} {cell_tree(list(s.body) + rest, cell, fl, sink, held)} {cell_tree(list(s.orelse) + rest, cell, fl, sink, held)})"
+    if isinstance(s, ast.Expr) and isinstance(s.value, ast.Call) and src(s.value.func).endswith(".append") and len(s.value.args) == 1:
+        lf = leaf_of(s.value.args[0])
+        return lf if lf is not None else f"(.leaf (.other {lean_str(src(s.value.args[0]))}))"
+    return cell_tree(rest, cell, fl, sink, held)
 
 
 def generate() -> str:
